@@ -1,8 +1,13 @@
 #!/bin/sh
 # usage: check.sh <property-id> [quick|thorough]
 # Rebuilds nothing but the verification conditions: the engine binary is built by setup.sh; VCs are generated
-# from /repo's current working tree (build tag verif) on every run.
+# from /repo's current working tree (build tag verif) on every run. For the tree mutators that are outside the
+# deductive engine's reach a bounded stand-in (tools/bounded.py, labelled bounded in the evidence) runs afterwards.
 cd "$(dirname "$0")" || exit 2
 export GOFLAGS=-mod=mod GOPROXY=off GOSUMDB=off GOTOOLCHAIN=local
 [ -x bin/govc ] || ./setup.sh >/dev/null 2>&1 || { echo "setup failed"; exit 2; }
-exec bin/govc check -property "$1" -tier "${2:-${VERIF_TIER:-quick}}"
+TIER="${2:-${VERIF_TIER:-quick}}"
+bin/govc check -property "$1" -tier "$TIER"; rc=$?
+[ $rc -gt 1 ] && exit $rc
+python3 tools/bounded.py "$1" "$TIER" || rc=1
+exit $rc
